@@ -279,7 +279,7 @@ def confirm_in_fresh_interpreter(path, signature):
 # ----------------------------------------------------------------------------------------------
 
 
-def run_check(prop, tier, seed, budget_s=None, workers=None, want_digests=False, quiet=False):
+def run_check(prop, tier, seed, budget_s=None, workers=None, want_digests=False, quiet=False, write_evidence=True):
     t0 = time.time()
     world = load_world(prop)
     cfg = world.TIERS[prop][tier]
@@ -382,6 +382,8 @@ def run_check(prop, tier, seed, budget_s=None, workers=None, want_digests=False,
     exit_code = 0
     n_unknown = 0
     for sig in sorted(total["soft_hits"]):
+        if quiet:
+            continue
         print(f"KNOWN-FINDING: property={prop} {known[sig].get('what', sig) if sig in known else sig} [signature={sig} hits={total['soft_hits'][sig]}]")
     for sig in sorted(by_sig):
         vs = by_sig[sig]
@@ -445,10 +447,11 @@ def run_check(prop, tier, seed, budget_s=None, workers=None, want_digests=False,
         "wall_s": round(wall, 2),
         "violations": len(total["violations"]),
     }
-    os.makedirs(EVIDENCE, exist_ok=True)
-    with open(os.path.join(EVIDENCE, f"{prop}.json"), "w") as f:
-        json.dump(ev, f, indent=1, sort_keys=True)
-        f.write("\n")
+    if write_evidence:
+        os.makedirs(EVIDENCE, exist_ok=True)
+        with open(os.path.join(EVIDENCE, f"{prop}.json"), "w") as f:
+            json.dump(ev, f, indent=1, sort_keys=True)
+            f.write("\n")
     if not quiet:
         print(
             f"[{prop} {tier} seed={seed}] runs={total['runs']} (enumerated {len(enum_plans)}) nontrivial-distinct={len(total['nontrivial'])} "
